@@ -309,10 +309,7 @@ func (ex *Exec) libModelVals(full string, callee *types.Func, recv *Val, args []
 		if isByte(elem) {
 			return []Val{{bytesEq(args[0].T, args[1].T), boolT}}, true
 		}
-		a, b := args[0].T, args[1].T
-		k := Const("k", SInt)
-		eq := ex.valueEq(ex.elemAt(a, elem, k), ex.elemAt(b, elem, k), elem)
-		return []Val{{And(Eq(SLen(a), SLen(b)), Forall([]string{"k"}, Imp(And(Le(I(0), k), Lt(k, SLen(a))), eq))), boolT}}, true
+		return []Val{{ex.slicesEqualTerm(args[0].T, args[1].T, elem), boolT}}, true
 	case "slices.Contains":
 		ex.libUsed[full] = true
 		elem := elemTypeOf(args[0].Typ)
@@ -337,6 +334,7 @@ func (ex *Exec) libModelVals(full string, callee *types.Func, recv *Val, args []
 		ex.libUsed["atomic.Int32 (sequential integer)"] = true
 		ex.ensureHeap("$G.atomic32", SInt)
 		cur := ex.get(ex.st, "$G.atomic32")
+		ex.assume(ex.typeFact(types.Typ[types.Int32], Select(cur, recv.T)))
 		nv := Add(Select(cur, recv.T), args[0].T)
 		// int32 wrap-around
 		w := Mod(Add(nv, pow2(31)), pow2(32))
@@ -511,3 +509,13 @@ func (ex *Exec) mapDelete(m Val, mt *types.Map, k Val) {
 }
 
 var _ = fmt.Sprint
+
+// slicesEqualTerm is the meaning of slices.Equal(a, b).
+func (ex *Exec) slicesEqualTerm(a, b *T, elem types.Type) *T {
+	if isByte(elem) {
+		return bytesEq(a, b)
+	}
+	k := Const("k", SInt)
+	eq := ex.valueEq(ex.elemAt(a, elem, k), ex.elemAt(b, elem, k), elem)
+	return And(Eq(SLen(a), SLen(b)), Forall([]string{"k"}, Imp(And(Le(I(0), k), Lt(k, SLen(a))), eq)))
+}
